@@ -1,6 +1,6 @@
 #pragma once
 // C13 — configured thread count. Shared between the halves.
-enum { C13_INIT = 0, C13_QUERY = 1, C13_LOOP = 2 };
+enum { C13_INIT = 0, C13_QUERY = 1, C13_LOOP = 2, C13_NESTED = 3 };  // NESTED: every body of the outer loop runs an inner loop
 struct C13Op
 {
   int kind;
